@@ -255,3 +255,43 @@ def rule_ignore_first(ctx, prop):
                                   f"treated as out-of-range and the statements nested in it are formatted", f.loc(s.get("sp")), cfg)
         rep.floor("NotInRange / Normal answers of should_format_node", n, 2, cfg)
     return rep
+
+
+def rule_toggle_ignores_range(ctx, prop):
+    """`-- stylua: ignore start` / `ignore end` open and close a region of the *file*: the walk has to see them on every
+    statement it passes, inside the formatting range or not"""
+    rep = Report(prop, "R-RANGE(toggle)", "Context::check_toggle_formatting does not consult the formatting range (no read of `self.range`, no "
+                                          "start_position / end_position of the node): a directive on a statement outside the range still "
+                                          "toggles the state for the statements that follow")
+    for cfg, prog in ctx.programs.items():
+        f = prog.fn("stylua_lib", "context::Context::check_toggle_formatting")
+        if not rep.anchor(f is not None, "Context::check_toggle_formatting", cfg):
+            continue
+        reads = []
+        for b, si_, s in f.stmts():
+            if s["k"] != "assign":
+                continue
+            rv = s["rv"]
+            # copying the field into the rebuilt Context (`Self { formatting_disabled, ..*self }`) is not consulting it; taking its
+            # discriminant (`if let Some(range) = self.range`) is
+            if rv["k"] == "discr" and ("f", "range") in proj_fields(rv["p"]):
+                reads.append("self.range")
+        for b, t in f.calls():
+            c = callee(t)
+            if re.search(r"Node>?::(start_position|end_position|range)$|node::Node::(start_position|end_position|range)$", c):
+                reads.append(c.split("::")[-1])
+            if t["k"] == "switch":
+                pass
+        for bi, blk in enumerate(f.blocks):
+            t = blk["term"]
+            if t["k"] == "switch" and not is_const(t["on"]) and ("f", "range") in proj_fields(op_place(t["on"])):
+                reads.append("self.range")
+        ok = not reads
+        rep.inst(f"{f.key} is independent of the formatting range", {"blocks": len(f.blocks)}, cfg, ok=ok)
+        if not ok:
+            rep.violation(f"{f.key} toggle-depends-on-range via={','.join(sorted(set(reads)))}",
+                          f"check_toggle_formatting reads {sorted(set(reads))}: for a node outside the formatting range it can return "
+                          f"without scanning the node's comments, so an `-- stylua: ignore start` / `ignore end` attached to an "
+                          f"out-of-range statement (or to a function that merely contains the selection) is missed and statements inside "
+                          f"the range are formatted - or left alone - differently from a whole-file run", f.loc(), cfg)
+    return rep
